@@ -2,7 +2,7 @@
 """seed_save.py <ID> <n> <status> <what> <needs> <detection>  — store a confirmed breaking change under /verif/seeded/<ID>-<n>/"""
 import sys, os, shutil, json, glob, subprocess
 pid, n, status, what, needs, detection = sys.argv[1:7]
-wt = f'/tmp/wt/{pid}'
+wt = os.environ.get('WTROOT','/tmp/wt') + f'/{pid}'
 d = f'/verif/seeded/{pid}-{n}'
 os.makedirs(d, exist_ok=True)
 shutil.copy(f'{wt}/MUTATION.diff', f'{d}/patch.diff')
